@@ -80,6 +80,15 @@ func runC10(ctx *h.Ctx) int {
 					switch x := st.(type) {
 					case *spec.CmdStmt:
 						want = append(want, normLine(lm.renderCmd(x.Cmd)))
+						for ai, a := range x.Cmd.Args {
+							if a.Text == nil && a.Moves == nil && len(a.Toks) == 0 {
+								if ai == len(x.Cmd.Args)-1 {
+									k.Count("commands_with_trailing_comma", 1)
+								} else {
+									k.Count("commands_with_empty_argument", 1)
+								}
+							}
+						}
 					case *spec.Label:
 						if x.Scope == spec.ScopeGlobal {
 							want = append(want, x.Name+"::")
